@@ -193,10 +193,15 @@ defjvp(
 )
 
 
+def is_int_axis(axis):
+    # what NumPy accepts as a single axis: Python ints, NumPy integers and 0-d integer arrays
+    return isinstance(axis, (int, onp.integer)) or (isinstance(axis, onp.ndarray) and axis.ndim == 0 and axis.dtype.kind in "iu")
+
+
 def forward_grad_np_var(g, ans, x, axis=None, ddof=0, keepdims=False):
     if axis is None:
         num_reps = anp.size(g)
-    elif isinstance(axis, (int, onp.integer)):
+    elif is_int_axis(axis):
         num_reps = anp.shape(g)[axis]
     elif isinstance(axis, tuple):
         num_reps = anp.prod(anp.array(np.shape(g))[list(axis)])
@@ -211,7 +216,7 @@ defjvp(anp.var, forward_grad_np_var)
 def forward_grad_np_std(g, ans, x, axis=None, ddof=0, keepdims=False):
     if axis is None:
         num_reps = anp.size(g)
-    elif isinstance(axis, (int, onp.integer)):
+    elif is_int_axis(axis):
         num_reps = anp.shape(g)[axis]
     elif isinstance(axis, tuple):
         num_reps = anp.prod(anp.array(anp.shape(g))[list(axis)])
@@ -229,7 +234,7 @@ def fwd_grad_chooser(g, ans, x, axis=None, keepdims=False):
     if anp.isscalar(x):
         return g
     if not keepdims:
-        if isinstance(axis, (int, onp.integer)):
+        if is_int_axis(axis):
             ans = anp.expand_dims(ans, axis)
         elif isinstance(axis, tuple):
             for ax in sorted(a % anp.ndim(x) for a in axis):
